@@ -209,7 +209,12 @@ def fam_roundtrip(rng, tier, i):
             s.insert(at + 1, "push %d %s" % (t_bad, hexb(bad)))
     s += ["read_all u u"] + ACCESSORS
     s += ["close", open_line("s", rng.choice(["any", p]), rng.choice(["any", hdr]), ext=rng.randrange(2))]
-    s += ["read_all u u"] + ACCESSORS + push_lines(lines[cut:]) + ["read_all u u"] + ACCESSORS + ["dump"]
+    s += ["read_all u u"] + ACCESSORS + push_lines(lines[cut:]) + ["read_all u u"] + ACCESSORS
+    if i % 4 == 1:
+        # the usual "create, else open" start-up of an application: the create of a series that exists is refused and must leave
+        # every line where it is
+        s += ["close", new_line("s", p, hdr), open_line("s"), "read_all u u", "len"]
+    s += ["dump"]
     return {"family": "roundtrip", "lines": s, "tags": {"p%d" % p}}
 
 def sparse_boundary_series(rng, p, target_offset_slots, nsec_extra=3):
@@ -537,7 +542,14 @@ def fam_reopen(rng, tier, i, marker=False):
         if directed:
             s += ["close", open_line("o", rng.choice(["any", p]), rng.choice(["any", hdr])), "read_all u u", "len"]
         elif r < 0.5:
-            s += ["close", open_line("o", rng.choice(["any", p]), rng.choice(["any", hdr]))]
+            # now and then a refused append (wrong length, timestamp newer than the last line) right before the close, and the
+            # same read-only calls on both sides of the clean reopen: what the handle reported before must be what it reports after
+            pre = []
+            if rng.random() < 0.4:
+                wl = p - 1 if (p > 0 and rng.random() < 0.5) else p + rng.choice([1, 2])
+                pre.append("push %d %s" % (min(t + rng.choice([1, 70000]), U64 - 1), hexb(bytes(rng.randrange(256) for _ in range(wl)))))
+            chk = rng.sample(["range", "last_line", "len", "read_all u u"], 2) if (pre or rng.random() < 0.3) else []
+            s += pre + chk + ["close", open_line("o", rng.choice(["any", p]), rng.choice(["any", hdr]))] + chk
             # a read or a count that ends before the last line, then the next push must still append
             a = rng.choice(done); b = rng.choice(done)
             s.append(rng.choice(["read_all i%d i%d" % (min(a, b), max(a, b)), "n_lines i%d i%d" % (min(a, b), max(a, b)),
@@ -628,6 +640,18 @@ def fam_index_states(rng, tier, i):
     lines = mk_lines(rng, p, n, shape=rng.choice(["sparse", "mixed", "edge"]), no_marker=True)
     s = [new_line("x", p)] + push_lines(lines) + ["close"]
     st = rng.random()
+    if i % 5 == 2:
+        # the process was killed inside the write of the index entry of a new section (the entry goes out first, in two writes
+        # of 8 bytes): the index ends in the first r bytes of that entry, the data file holds nothing of the section. The
+        # application then appends the sample it lost, with the same timestamp, closes and opens again.
+        t_lost = lines[-1][0] + rng.choice([65535, 70000, 10**6])
+        if t_lost < U64:
+            r = rng.choice([8, 8, 8, rng.randrange(1, 16)])
+            entry = t_lost.to_bytes(8, "little") + (len(encode(p, lines))).to_bytes(8, "little")
+            s += ["fs_append index:x %s" % hexb(entry[:r]), open_line("x"), "range", "read_all u u",
+                  "push %d %s" % (t_lost, hexb(payload(rng, p))), "range", "close", "dump", open_line("x"), "range", "len", "read_all u u",
+                  "read_all i%d u" % t_lost, "push %d %s" % (t_lost - 1, hexb(payload(rng, p))), "close", "dump"]
+            return {"family": "index_states", "lines": s, "tags": {"p%d" % p, "torn_entry"}}
     if st < 0.25:
         s.append("fs_rm index:x")
     elif st < 0.55:
@@ -719,7 +743,8 @@ def fam_caches(rng, tier, i, reopen=False, faults=False):
     cut = rng.randrange(0, n + 1)
     s += push_lines(lines[:cut])
     if later or reopen:
-        s += ["close", open_line("c", "any", "any", Bs)]
+        # by file name (with the extension) or by series name; the payload size given or read from the file: two builder paths
+        s += ["close", open_line("c", "any" if i % 3 else p, "any", Bs, ext=(i // 2) % 2)]
     if not reopen and rng.random() < 0.4:
         # resampling reads served from a cache (few samples over a bounded range, so that a level is read and the read stops
         # before the end of that level's file) between the appends: the bucket that completes next is still appended
@@ -733,8 +758,8 @@ def fam_caches(rng, tier, i, reopen=False, faults=False):
         s += push_lines(lines[cut:])
     if reopen:
         k = rng.randrange(0, 3)
-        for _ in range(k):
-            s += ["close", open_line("c", "any", "any", Bs)]
+        for k3 in range(k):
+            s += ["close", open_line("c", "any", "any", Bs, ext=(i + k3) % 2)]
     if faults:
         s.append("close")
         B = rng.choice(Bs)
@@ -1071,6 +1096,8 @@ FAMILIES = {f.__name__[4:]: f for f in [
     fam_bigline, fam_torn, fam_index_states, fam_format, fam_assets, fam_caches, fam_caches_reopen,
     fam_caches_faults, fam_caches_rebuild, fam_cache_sections, fam_resample, fam_contract, fam_corrupt, fam_totality]}
 
+GEN_ERRORS = []
+
 def generate(plan, tier, seed):
     """plan: list of (family, count). Returns the histories."""
     rng = random.Random(seed)
@@ -1078,7 +1105,13 @@ def generate(plan, tier, seed):
     for fam, count in plan:
         f = FAMILIES[fam]
         for i in range(count):
-            h = f(rng, tier, i)
+            try:
+                h = f(rng, tier, i)
+            except (ValueError, IndexError, KeyError, ZeroDivisionError, RecursionError, OverflowError) as e:
+                # a generator that trips over its own arithmetic must not take the check down: the history is left out
+                # and counted (GEN_ERRORS ends up in the evidence)
+                GEN_ERRORS.append("%s[%d] seed %d: %s: %s" % (fam, i, seed, type(e).__name__, e))
+                continue
             h["id"] = "%s-%d-%d" % (h["family"], seed, len(out))
             out.append(h)
     return out
